@@ -16,9 +16,7 @@ def classify(line):
     for pat, key in (("not in one piece", "seqlock:torn-load"), ("never published", "seqlock:torn-load"),
                      ("already published when the load started", "seqlock:stale-load"), ("went back", "seqlock:load-went-back"),
                      ("while thread", "seqlock:two-producers"), ("although no producer exists", "seqlock:acquire-fails-when-free"),
-                     ("final write_cell", "seqlock:lost-update"), ("final value", "seqlock:lost-update"), ("panicked", "seqlock:panic"),
-                     ("second writer", "blackboard:second-writer"), ("second handle", "blackboard:second-handle"),
-                     ("disturb", "blackboard:failed-create-disturbs")):
+                     ("final write_cell", "seqlock:lost-update"), ("final value", "seqlock:lost-update"), ("panicked", "seqlock:panic")):
         if pat in line:
             return key
     return "c12:other"
@@ -45,7 +43,9 @@ def run(ctx):
     nr = 8000 if thorough else 800
     for i in range(8):
         jobs.append(("rnd:%d" % i, [exe, "rnd", str(nr), str(i), "8", str(ctx.seed)]))
+    ctx.log("proofs + builds done; running %d G1 jobs" % len(jobs))
     r = vlib.run_pipelines(jobs, driver)
+    ctx.log("G1 done: %d executions, %d accesses" % (r["cases"], r["ops"]))
     ctx.cov.update({
         "evaluations": r["cases"], "distinct_nontrivial": r["distinct_nontrivial"],
         "traces_validated_against_impl": r["cases"], "accesses_compared": r["ops"],
@@ -88,6 +88,29 @@ def run(ctx):
                       "no schedule violating the property found among those explored: " + line,
                       {"obligation": "G1 trace equality between model/SeqLock.v `step` (theorems c12_*) and UnrestrictedAtomic",
                        "first_divergence": line, "execution": hist, "harness_cmd": cmd, "other_divergences": [m[2] for m in model_mm[1:6]]}, no_input=True)
+    # happens-before analysis of the observed traces (driver: vector clocks over the compared events)
+    hbw = sorted((v, k[len("hbwitness:"):]) for k, v in r["extra"].items() if k.startswith("hbwitness:"))
+    hb = {k: v for k, v in r["extra"].items() if k.startswith("hb_")}
+    for k in [k for k in r["extra"] if k.startswith("hbwitness:")]:
+        del ctx.cov["model_branches_exercised"][k]
+    ctx.cov["happens_before_analysis"] = {
+        "rule": "C11 release/acquire happens-before (vector clocks, release sequences through RMWs) over every compared execution, with the "
+                "memory orderings observed in the trace: is each plain write of a data cell ordered after the plain reads / writes of that cell by other threads?",
+        "counters": dict(sorted(hb.items()))}
+    if hb.get("hb_read_unordered_with_cell_write", 0) or hb.get("hb_cell_write_unordered_with_cell_write", 0):
+        ctx.violation("a cell copy is not ordered after the write that published it / two cell writes are unordered", {"counters": hb}, key="seqlock:publish-not-ordered")
+    if hb.get("hb_cell_write_unordered_with_validated_read", 0):
+        n, prog, sch = (hbw[0][1].split(":") + ["", "", ""])[:3] if hbw else ("", "", "")
+        ctx.violation(
+            "memory ordering: a VALIDATED load's copy of a cell is not ordered (C11 happens-before) before the writer's next write into that cell: "
+            "the reader's validating CAS(w,w,AcqRel) releases, but the writer never acquires (store: write_cell.load(Relaxed) ... fetch_add(1, Release); "
+            "__internal_update_write_cell likewise) -- a data race on the cell; on hardware that lets the later plain write pass the earlier "
+            "release RMW (ARMv8 allows it) the validated value can be a mixture. %d of %d analysed executions; shortest: size %s program %s schedule %s"
+            % (hb.get("hb_executions_with_unordered_validated_read", 0), hb.get("hb_executions_analysed", 0), n, prog, sch),
+            {"counters": hb, "size": n, "program": prog, "schedule": sch,
+             "how_to_rerun": "%s one %s '%s' %s | %s   (EXTRA hb_* lines; C12_WHATIF=fadd_acqrel or load_acquire in the driver's environment re-runs the analysis with the writer acquiring: 0 remain)" % (exe, n, prog, sch, driver),
+             "anchors": ["iceoryx2-bb/lock-free/src/spmc/unrestricted_atomic.rs: store() load(Relaxed) + fetch_add(1, Release); Producer::__internal_update_write_cell / UnrestrictedAtomicMgmt::__internal_update_write_cell fetch_add(1, Release); load() compare_exchange(w, w, AcqRel, SeqCst)"]},
+            key="seqlock:validated-read-unordered-with-cell-reuse")
     missing = [k for k in REQUIRED if r["extra"].get(k, 0) == 0]
     if missing and not r["failed_jobs"]:
         ctx.violation("model branches never exercised by the tie (it says nothing about them): %s" % ",".join(missing), {"missing": missing}, no_input=True)
@@ -109,7 +132,9 @@ def run(ctx):
     ctx.cov["real_thread_runs"] = {"rule": "ungated: 1 writer (store / loan alternating) || 2 readers for %d ms per size; every loaded value self-checked "
                                            "(well formed, was current at some instant of the load, per reader never older)" % ms, "runs": stress}
 
+    ctx.log("real-thread runs done")
     g3(ctx)
+    ctx.log("G3 done")
 
     if not proof_ok and not ctx.violations:
         ctx.violation("proof obligation no longer checks: %s" % ctx.broken, {"broken": ctx.broken}, no_input=True)
@@ -139,22 +164,27 @@ def g3(ctx):
     nsh = 8
     jobs = []
     for i in range(nsh):
-        jobs.append(("g3exh:%d" % i, [exe, "exh", "5" if thorough else "4", str(i), str(nsh), str(ctx.seed)]))
-        jobs.append(("g3rnd:%d" % i, [exe, "rnd", "4000" if thorough else "400", str(i), str(nsh), str(ctx.seed)]))
+        jobs.append(("g3exh:local:%d" % i, [exe, "exh", "6" if thorough else "5", str(i), str(nsh), str(ctx.seed), "local"]))
+        jobs.append(("g3exh:ipc:%d" % i, [exe, "exh", "5" if thorough else "4", str(i), str(nsh), str(ctx.seed), "ipc"]))
+        jobs.append(("g3rnd:%d" % i, [exe, "rnd", "5000" if thorough else "500", str(i), str(nsh), str(ctx.seed), "both"]))
     r = vlib.run_pipelines(jobs, driver)
     ctx.cov["g3_blackboard"] = {
         "evaluations": r["cases"], "ops": r["ops"], "distinct_nontrivial": r["distinct_nontrivial"], "opcount": r["opcount"],
+        "branches": dict(sorted(r["extra"].items())),
         "rule": "sequential histories (exhaustive to a length bound + seeded random) of writer/reader/entry-handle creation, drops, updates, loans "
                 "and gets through the REAL iceoryx2 blackboard API, compared op by op with model/Blackboard.v; oracle on the implementation's own "
                 "observations: at most one Writer, at most one EntryHandleMut per key, a failed creation does not disturb the first holder",
     }
+    vlib.sh("rm -rf /dev/shm/verif-c12-* /dev/shm/c12_*")   # left behind only by a harness killed by a timeout
     for lbl, cmd, rc, tail in r["failed_jobs"]:
         ctx.violation("G3 job failed (harness or driver crashed): " + lbl, {"cmd": cmd, "rc": rc, "tail": tail}, no_input=True)
     spec_mm = [m for m in r["mismatch_lines"] if "kind=spec" in m[2]]
     model_mm = [m for m in r["mismatch_lines"] if "kind=model" in m[2]]
     seen = set()
     for lbl, cmd, line in spec_mm:
-        key = classify(line)
+        mo = re.search(r"line=\[O (\w+)", line)
+        ms = re.search(r"spec=([\w-]+)", line)
+        key = "blackboard:%s:%s" % (mo.group(1) if mo else "?", ms.group(1) if ms else "?")
         if key in seen:
             continue
         seen.add(key)
